@@ -250,6 +250,10 @@ def extract(ctx):
         rows.append(f'  /- {c.__module__} -/ ⟨"{c.__name__}", [{fs}]⟩')
     L.append(",\n".join(rows) + "]")
     L.append("")
+    L.append("/-- `get_origin(cls)` of every class, fully qualified: the class component of Memoize's key. -/")
+    L.append("def classOrigins : List String := [" +
+             ", ".join('"%s.%s"' % (c.__module__, c.__qualname__) for c, _, _ in entries) + "]")
+    L.append("")
     L.append("def probes : List Probe := [")
     L.append(",\n".join(f'  ⟨"{A.__name__}", "{B.__name__}", ProbeOutcome.{o}⟩' for A, B, o, _, _ in probes) + "]")
     L.append("")
@@ -587,12 +591,18 @@ def check_memo(ctx, recs_by_cfg, use_driver=True):
             src_model = [int(r[2]) for r in model]
             verdicts[kind] = (miss_model == m["miss"] and
                               all(m["obj"][i] == m["obj"][s_] for i, s_ in enumerate(src_model)), miss_model)
-        if verdicts.get("real", (False,))[0]:
+        if verdicts.get("full", (False,))[0]:
             ctx.count("memo-model-agrees")
-            ctx.count("memo-model-agrees:key=args-only")
-        elif verdicts.get("full", (False,))[0]:
-            ctx.count("memo-model-agrees")
-            ctx.count("memo-model-agrees:key=class+args")
+            if not verdicts.get("real", (False,))[0]:
+                ctx.count("memo-histories-separating-class+args-from-args-only")
+        elif verdicts.get("real", (False,))[0]:
+            # behaves like the pre-99d933f key (class dropped): cross-class collisions return the wrong class's object
+            ctx.fail("correspondence", "C03.memo-key-drops-class",
+                     witness={"history": m["desc"], "reqs": m["reqs"], "impl_miss": m["miss"],
+                              "model_miss_class_args": verdicts["full"][1] if "full" in verdicts else None,
+                              "config": list(cfg)},
+                     expected="Memoize keyed by (origin class, arguments) [headKey]",
+                     got="hit/miss pattern of the key without the class [realKey]")
         else:
             ctx.fail("correspondence", "C03.memo-hit-miss-pattern",
                      witness={"history": m["desc"], "reqs": m["reqs"],
@@ -724,14 +734,16 @@ def spec_requests(ctx, cs):
 
 def sizes(ctx):
     if ctx.tier == "quick":
-        return 200, 3
+        return 220, 3
     return 5200, 4
 
 
 def correspond(ctx):
     n, nshards = sizes(ctx)
     base_seed = ctx.rng.getrandbits(48)
-    ctx.rule = ("seeded cases: 3/5 random type-directed recipes of fv/gen_terms.py (depth <= 4, 1-4 Bint inputs of size 1-4), "
+    ctx.rule = ("seeded cases: 2/5 random type-directed recipes of fv/gen_terms.py (depth <= 4, 1-4 Bint inputs of size 1-4), "
+                "1/5 normal-form grid shapes (unary neg/abs of a max/min/add/mul reduction of a binary add/mul/sub/max/min, bare or "
+                "wrapped in sub/add/outer reduce/second unary; the (unary, red_op, bin_op) grid is walked in order), "
                 "1/5 sum-product shapes (product of 2-4 factors reduced by add/max/min, optionally in two elimination steps), "
                 "1/5 reductions of LAZY bodies with a free real variable (exercise sequential_reduce); each case is run in 4 "
                 "sub-process configurations FUNSOR_USE_TCO x FUNSOR_TYPECHECK under ~32 modes (eager; lazy/reflect/normalize/"
@@ -886,6 +898,46 @@ def make_funsor_stream(ctx):
                     "python": MAKE_FUNSOR_SNIPPET.format(a=script[0].__name__, b=cls.__name__, sig=sig,
                                                          abody=abody if script[0] is A else bbody,
                                                          bbody=bbody if cls is B else abody, args=argsrc)}
+    # direct construction and reinterpretation of the same term hit the same entry (that is why the key uses
+    # get_origin): identical object, right value
+    from funsor.interpreter import reinterpret as _re, recursion_reinterpret as _rec, stack_reinterpret as _stk
+    for _ in range(n):
+        (A, abody), (B, bbody), sig, ar = rng.choice(pairs)
+        data = np.array([rng.choice([-2, -1, 1, 2, 3]) for _ in range(2)], dtype=np.float64)
+        t = Tensor(data, OrderedDict(i=Bint[2]))
+        args = (t,) * ar
+        kind = rng.choice(["user", "binary", "reduce"])
+        if kind == "user":
+            mk = lambda: A(*args)
+        elif kind == "binary":
+            mk = lambda: ops.add(t, t) if ar == 1 else ops.mul(t, t)
+        else:
+            mk = lambda: t.reduce(ops.add, "i")
+        with lazy:
+            e = mk()
+        want = mk()
+        fn = rng.choice([_re, _rec, _stk])
+        with memoize():
+            if rng.random() < 0.5:
+                a1, a2 = mk(), fn(e)
+            else:
+                a2, a1 = fn(e), mk()
+        ctx.count(f"memo-direct-vs-reinterpret:{kind}")
+        va, vb, vw = W.force(a1, ins), W.force(a2, ins), W.force(want, ins)
+        if va[0] == vb[0] == vw[0] == "value" and not (W.digest(va[1]) == W.digest(vb[1]) == W.digest(vw[1])):
+            ctx.fail("input", "C03.memoize-wrong-result",
+                     witness={"kind": kind, "class": A.__name__, "data": data.tolist()},
+                     expected=str(vw[1]["vals"]), got=f"direct {va[1]['vals']} / reinterpreted {vb[1]['vals']}")
+        elif a1 is not a2 and kind != "reduce":
+            # same class, same arguments (no binder is renamed in these two kinds): must be one cache entry
+            ctx.fail("input", "C03.memoize-not-same-object",
+                     witness={"kind": kind, "class": A.__name__, "data": data.tolist(), "reinterpreter": fn.__name__},
+                     expected="direct construction and reinterpretation of the same term return the identical object "
+                              "under memoize() (key uses get_origin(cls))", got="two different objects")
+        elif a1 is not a2:
+            ctx.count("memo-direct-vs-reinterpret:reduce-not-identical (binder renamed by alpha-conversion: other arguments)")
+        else:
+            ctx.count("memo-direct-vs-reinterpret:identical")
     what = ("Memoize keys its cache by the arguments only (make_hash_key drops cls): two make_funsor classes with the "
             "same signature called with the same arguments under memoize() share an entry; the second request "
             "returns the first class's result")
